@@ -28,7 +28,8 @@ def _run_job(args):
         import traceback
         # an error raised by pySDC itself on a legal configuration is an outcome of the run (these configurations have nilpotent
         # operators: no solve is singular, every variant converges); anything else is a failure of the harness
-        lib = type(e).__module__.startswith('pySDC')
+        from lib.errors import origin
+        lib = type(e).__module__.startswith('pySDC') or origin(e) == 'library'
         return dict(id=cid, error=f'{type(e).__name__}: {e} {traceback.format_exc()[-400:]}', cfg=cfg, library_error=type(e).__name__ if lib else None)
 
 
